@@ -475,6 +475,11 @@ func (s *Server) handleSessionMessage(addr *net.UDPAddr, msg []byte) error {
 		return nil
 	}
 
+	// Too short to hold a counter and a tag: PlaintextLen is negative
+	if PlaintextLen(len(msg)) < 0 {
+		return ErrInvalidMessage
+	}
+
 	// TODO(dadrian): Can we avoid this allocation?
 	plaintext := make([]byte, PlaintextLen(len(msg)))
 	_, mt, err := ss.readPacketLocked(plaintext, msg, ss.readKey)
